@@ -190,6 +190,14 @@ def rule_idle_arming(ctx: Ctx) -> RuleResult:
             ok = not any(c in r for c in cb)
         if not ok:
             rr.add(finding("PASS", w, w.node, "the idle-arming wrapper can run the callback without having scheduled _entering_idle (other than when it is already scheduled)", construct="wrapper does not arm idle"))
+        # the decision is taken *before* the user callback runs: it may depend on "already armed" only.  A test that
+        # also looks at the idle callbacks registered so far misses a callback that registers one (enter_idle() from
+        # inside an alarm / watch callback): the loop then goes quiescent without the idle pass
+        for t in tests:
+            other = sorted({x.attr for x in ast.walk(t.ast) if isinstance(x, ast.Attribute) and isinstance(x.value, ast.Name) and x.value.id == "self" and x.attr != "_idle_asyncio_handle"})
+            rr.inst(f"{key}: arming decided by the handle alone", True, {"test": norm(t.ast, 70), "other_state_read": other})
+            if other:
+                rr.add(finding("PASS", w, t.stmt, f"the idle pass is armed under `{norm(t.ast, 70)}`, which also reads self.{'/'.join(other)} before the callback has run: an idle callback registered by that very callback gets no idle pass before the loop goes quiescent", construct=f"idle arming depends on {'/'.join(other)}"))
     tw = p.func(f"{LOOPS['twisted']}.handle_exit.<locals>.wrapper")
     rr.inst("twisted: wrapper re-enables idle", True)
     if not list(calls_in(tw, "_enable_twisted_idle")):
@@ -714,6 +722,7 @@ from ..mutants import Mut  # noqa: E402
 _S = "urwid/event_loop/select_loop.py"
 _A = "urwid/event_loop/asyncio_loop.py"
 MUTANTS = [
+    Mut("asyncio-arms-idle-only-with-listeners", _A, "AsyncioEventLoop._also_call_idle", "            if not self._idle_asyncio_handle:", "            if self._idle_callbacks and not self._idle_asyncio_handle:", "PASS|event_loop.asyncio_loop.AsyncioEventLoop._also_call_idle"),
     Mut("twisted-rewatch-keeps-old-reader", "urwid/event_loop/twisted_loop.py", "TwistedEventLoop.watch_file", "        if fd in self._watch_files:\n            # the reactor keeps one reader per descriptor and ignores a second one: replace the old watch\n            self.reactor.removeReader(self._watch_files[fd])\n", "", "PAIR|event_loop.twisted_loop.TwistedEventLoop.watch_file"),
     Mut("asyncio-fired-alarm-still-removable", _A, "AsyncioEventLoop.alarm", "            handle.cancel()\n            callback()", "            callback()", "ORDER|event_loop.asyncio_loop.AsyncioEventLoop.alarm"),
     Mut("trio-fired-alarm-still-removable", "urwid/event_loop/trio_loop.py", "TrioEventLoop._alarm_task", "            scope.cancel()\n            callback()", "            callback()", "ORDER|event_loop.trio_loop.TrioEventLoop._alarm_task"),
